@@ -156,3 +156,96 @@ def numeric_to_symbolic_const(mp):
         for i in range(len(mp)):
             out[i] = lift_array(np.asarray(mp[i].array))
     return out
+
+
+TREE_SHIMS = [
+    "renormalizer.tn.node.TreeNodeTensor.tensor (setter): dtype coercion skipped for dtype=object arrays",
+    "the names np / float / complex inside renormalizer.tn.tree: isclose/allclose/iscomplex exact on symbolic values, float()/complex() identity on symbolic values",
+]
+
+
+@contextlib.contextmanager
+def symbolic_mode_tree():
+    """shims for running renormalizer.tn.tree on symbolic tensors (on top of nothing else: the chain shims are independent)"""
+    import renormalizer.tn.node as node_mod
+    import renormalizer.tn.tree as tree_mod
+    cls = node_mod.TreeNodeTensor
+    orig_prop = cls.__dict__["tensor"]
+
+    def setter(self, tensor):
+        t = tensor
+        if isinstance(t, np.ndarray) and t.dtype == object:
+            self._tensor = t
+            return
+        orig_prop.fset(self, tensor)
+    new_prop = property(orig_prop.fget, setter)
+    cls.tensor = new_prop
+    cls.array = new_prop
+
+    class NPProxy:
+        def __getattr__(self, n):
+            return getattr(np, n)
+
+        @staticmethod
+        def _sym(x):
+            return isinstance(x, Poly) or (isinstance(x, np.ndarray) and x.dtype == object)
+
+        def isclose(self, a, b, *args, **kw):
+            if self._sym(a) or self._sym(b):
+                return bool(Poly.coerce(a) == Poly.coerce(b))
+            return np.isclose(a, b, *args, **kw)
+
+        def allclose(self, a, b, *args, **kw):
+            if self._sym(a) or self._sym(b):
+                return bool(np.all(np.vectorize(lambda x, y: bool(Poly.coerce(x) == Poly.coerce(y)), otypes=[bool])(a, b)))
+            return np.allclose(a, b, *args, **kw)
+
+        def iscomplex(self, x):
+            if self._sym(x):
+                return bool(Poly.coerce(x).imag) if isinstance(x, Poly) else False
+            return np.iscomplex(x)
+
+    def sym_float(x=0):
+        return x if isinstance(x, Poly) else builtins.float(x)
+
+    def sym_complex(x=0, *a):
+        return x if isinstance(x, Poly) else builtins.complex(x, *a)
+    saved = {k: tree_mod.__dict__.get(k) for k in ("np", "float", "complex")}
+    tree_mod.np, tree_mod.float, tree_mod.complex = NPProxy(), sym_float, sym_complex
+    try:
+        yield
+    finally:
+        cls.tensor = orig_prop
+        cls.array = orig_prop
+        for k, v in saved.items():
+            if v is None:
+                tree_mod.__dict__.pop(k, None)
+            else:
+                setattr(tree_mod, k, v)
+
+
+def symbolic_ttns(ttns, vf):
+    """copy of a numeric TTNS whose non-zero entries are replaced by fresh variables (zero pattern kept)"""
+    out = ttns.copy()
+    with symbolic_mode_tree():
+        for node in out.node_list:
+            a = np.asarray(node.tensor)
+            node.tensor = vf.array(a.shape, mask=(np.abs(a) > 0))
+    return out
+
+
+def const_ttno(ttno):
+    """same TTNO with exact constant entries"""
+    import copy as _copy
+    from vk.symx.poly import lift_array
+    out = _copy.copy(ttno)
+    from renormalizer.tn.node import TreeNodeTensor, copy_connection
+    nodes = []
+    with symbolic_mode_tree():
+        for n in ttno.node_list:
+            nodes.append(TreeNodeTensor(lift_array(np.asarray(n.tensor)), n.qn))
+    copy_connection(ttno.node_list, nodes)
+    from renormalizer.tn import TTNO
+    with symbolic_mode_tree():
+        new = TTNO(ttno.basis, ttno.terms, root=nodes[0])
+    return new
